@@ -163,15 +163,6 @@ Proof.
   destruct (mon_op m (d_next (dz s) o) o out). reflexivity.
 Qed.
 
-Lemma step_valid s o : d_ok (dz s) o = true ->
-  step s o = (if negb true then (s, [Skipped]) else
-    let d := d_next (dz s) o in
-    match o with
-    | AddCb => ({| dz := d; pending := pending s; tally := tally s; timers := timers s; parked := parked s; data := data s |}, [])
-    | _ => step s o
-    end).
-Proof. intros H. unfold step, step_gen. rewrite H. destruct o; reflexivity. Qed.
-
 (* ---- AddCb ---- *)
 Lemma good_AddCb s m : inv s -> rel s m -> d_ok (dz s) AddCb = true -> step_good s m AddCb.
 Proof.
@@ -242,9 +233,9 @@ Lemma good_Probe s m : inv s -> rel s m -> step_good s m Probe.
 Proof.
   intros I R. unfold step_good. rewrite (mon_valid s m Probe _ R eq_refl).
   unfold step, step_gen. cbn [d_ok negb fst snd mon_op d_next].
-  change (map (fun w => PendingEntry (fst w) (snd w)) (pending s) ++
+  change (map (fun w0 => PendingEntry (fst w0) (snd w0)) (pending s) ++
           map (fun x => TallyEntry (fst (fst x)) (snd (fst x)) (N.of_nat (snd x))) (tally s) ++
-          [match data s with Some w => DataIs (fst w) (snd w) | None => DataNone end])
+          [match data s with Some w1 => DataIs (fst w1) (snd w1) | None => DataNone end])
     with (probe_out (pending s) (tally s) (data s)).
   assert (Hq := probe_quiet (dz s) (pending s) (tally s) (data s)).
   destruct Hq as [Hq1 Hq2].
